@@ -26,7 +26,7 @@ func init() {
 			"horizon: queries up to 3 days of playing time (whatever the tick count), tempo events in a single track",
 			"inverse domain: durations below 2^40 microseconds and tick rates below 10^7 ticks per second (statement)",
 		},
-		Require: []string{"track_selection_reads", "other_events_with_delta_between_tempo_events", "maps", "queries", "border_queries", "monotonic_pairs", "repeated_tick_maps", "late_first_event_maps", "do_events_compared", "inverse_triples", "queries_beyond_2^32_ticks", "do_filtered_events_compared", "tempo_track_not_first", "format2_maps", "large_tempo_maps"},
+		Require: []string{"lookahead_queries_inside_do", "track_selection_reads", "other_events_with_delta_between_tempo_events", "maps", "queries", "border_queries", "monotonic_pairs", "repeated_tick_maps", "late_first_event_maps", "do_events_compared", "inverse_triples", "queries_beyond_2^32_ticks", "do_filtered_events_compared", "tempo_track_not_first", "format2_maps", "large_tempo_maps"},
 		Run:     runC11,
 	})
 }
@@ -223,6 +223,7 @@ func runC11(c *mon.Ctx) {
 			c.Violation("readtracks-error", trd.Error().Error(), in, nil, nil)
 			return
 		}
+		doEvents := 0
 		c.Guard("panic:Do", in, func() {
 			var absT = map[int]int64{}
 			trd.Do(func(te smf.TrackEvent) {
@@ -235,6 +236,14 @@ func runC11(c *mon.Ctx) {
 				if want := trd.SMF().TimeAt(te.AbsTicks); te.AbsMicroSeconds != want || !tm.Within(te.AbsMicroSeconds, num, int64(segs)) {
 					c.Violation("do-time", fmt.Sprintf("track %d event at tick %d: AbsMicroSeconds %d, TimeAt %d, exact %d", te.TrackNo, te.AbsTicks, te.AbsMicroSeconds, want, tm.Micros(num)), in, tm.Micros(num), te.AbsMicroSeconds)
 				}
+				// the callback looks ahead (the end of a note, the next bar) as the last thing it does: a lookup made
+				// from inside the iteration must be exact and must not disturb the times of the events that follow
+				doEvents++
+				la := te.AbsTicks + []int64{1, res, 4 * res, 100_000, abs + 5, 7}[doEvents%6]
+				if nl, sl := tm.Exact(la); !tm.Within(trd.SMF().TimeAt(la), nl, int64(sl)) {
+					c.Violation("timeat-in-callback", fmt.Sprintf("TimeAt(%d) called from inside the Do callback of the event at tick %d = %d, exact %d", la, te.AbsTicks, trd.SMF().TimeAt(la), tm.Micros(nl)), in, tm.Micros(nl), trd.SMF().TimeAt(la))
+				}
+				c.Count("lookahead_queries_inside_do", 1)
 			})
 		})
 		// reading a selection of tracks (also selections that leave out the track with the tempo events): the
